@@ -276,6 +276,15 @@ def differential(ctx, case, base, plan, stats):
         if f is None:
             continue
         rt, kind, detail, feed_k = f
+        if rt == "ort" and kind == "optimized-model-fails" and "ShapeInferenceError" in str(detail) and base["ref"] is not None:
+            # onnxruntime refuses to LOAD the optimized model (its static shape inference is stricter than its kernels: e.g. an If
+            # that is inlined exposes a [1]-shaped value where Range wants a scalar) while onnx.reference runs it with the same
+            # outputs as the original: counted, not flagged
+            st_r, out_r = R.run_ref(m2, case.feeds)
+            if st_r == "ok" and all(R.compare_outputs(w, g, case.exact, loose=case.kind.startswith("lifted")) is None
+                                    for w, g in zip(base["ref"], out_r)):
+                stats["ort-load-time-shape-inference-rejects-optimized(reference agrees)"] += 1
+                continue
         stage = attribute_stage(case, entry, opts, as_ir, failing)
         if "Required inputs" in str(detail) and case.overridable:
             key = "C03:initializer-input:default-removed"
